@@ -777,6 +777,29 @@ class Gen:
                 t = r.choice(types)
                 if t == "cursive" and has_cursive:
                     t = "spos"
+                if prev is not None and prev["type"] in ANYSUBST and chain == 0 and flag_is_zero(prev["flag"]) and r.random() < 0.35:
+                    # deliberately write a neighbour that feaLib folds into the same lookup (single + multiple/ligature)
+                    t2 = r.choice(["ligature", "multiple"]) if prev["type"] == "single" else "single"
+                    done = False
+                    for _try in range(6):
+                        try:
+                            cand = self.lookup(table, t2, force_flag=zero_flag())
+                        except RuntimeError:
+                            break
+                        if not flag_is_zero(cand["flag"]):
+                            continue
+                        i1, o1 = _io_sets(prev)
+                        i2, o2 = _io_sets(cand)
+                        if not (i1 & i2) and not (o1 & i2):
+                            cand["merge"] = True
+                            self.register(cand)
+                            items.append(dict(k="anon", lookup=cand))
+                            prev = cand
+                            chain = 1
+                            done = True
+                            break
+                    if done:
+                        continue
                 if x < 0.45:
                     L = self.lookup(table, t, name=self.name())
                     self.register(L)
